@@ -500,14 +500,11 @@ func main() {
 			"corner_scenarios":    total.Corners,
 			"workers":             *workers,
 			"stopped_by":          stopped,
-			"max_run_ms":          total.MaxRunMs,
-			"slow_runs":           total.SlowRuns,
 			"components_real":     info.Real,
 			"components_stub":     info.Stub,
 			"known_findings_seen": knownIDs,
-			"unreproducible":      unrepro,
-			"build_s":             buildS,
 		},
+		"diagnostics": map[string]any{"max_run_ms": total.MaxRunMs, "slow_runs": total.SlowRuns, "unreproducible": unrepro, "build_s": buildS},
 		"assumptions": info.Assumptions,
 		"wall_s":      wall,
 		"violations":  violations,
